@@ -451,6 +451,13 @@ impl AnnotationStore {
             let dataset_id: String = match dataitem.dataset {
                 BuildItem::Id(dataset_id) => dataset_id,
                 BuildItem::IdRef(dataset_id) => dataset_id.to_string(),
+                BuildItem::Handle(_) | BuildItem::Ref(_) => {
+                    // a handle (or reference) that does not resolve denotes no dataset at all, there is nothing to create:
+                    // refuse it rather than filing the data under the default dataset
+                    return Err(StamError::HandleError(
+                        "AnnotationDataSet supplied to AnnotationStore.insert_data() (often via with_data()) does not exist in this store",
+                    ));
+                }
                 _ =>
                 // if no dataset was specified at all, we create one named 'default-annotationset'
                 // the name is not prescribed by the STAM spec, the fact that we
